@@ -106,7 +106,7 @@ def step_contract(ctx):
     fn = it.repo_function(fnq)
     paths = it.explore(lambda: fn(p, s, a, optimizer=Optim(), opt_state=os_, loss_fn=loss_fn, key=key))
     props = ["C16", "C12", "C15"]
-    ctx.oblige("C16/step/struct/one_path", len(paths) == 1 and paths[0].outcome == "return", [], props, kind="struct", fn=fnq)
+    ctx.oblige("C16/step/struct/one_path", len(paths) == 1 and paths[0].outcome == "return", [], props, kind="applicability", fn=fnq)
     if len(paths) != 1 or paths[0].outcome != "return":
         return
     new_p, new_os, loss = paths[0].value
